@@ -23,6 +23,7 @@ func init() {
 			return append(blocks, []Oblig{
 				{Harness: "vh_C09_gate", Globals: g, Unroll: steps + 3},
 				{Harness: "vh_C09_execute", Globals: g, Unroll: steps + 3},
+				{Harness: "vh_C09_done", Globals: map[string]int{"vhMaxSteps": 2, "vhNExec": 1}, Unroll: 6},
 				{Harness: "vh_C09_wrapper", Globals: map[string]int{"vhMaxSteps": 2, "vhNExec": 1}, Unroll: 6},
 			}...)
 		},
